@@ -12,12 +12,14 @@
    request environments, every condition in every environment), tied by the `vverdict` correspondence; C15_policy_sound: an accepted
    policy, evaluated as the authorizer evaluates it (scope tests && conditions), yields a Boolean or an allowed error for every conforming
    request and store.  Proofs/PolicySoundProofs.v.
-   Not covered by a theorem (decided by the direct oracle of the check): the conformance checkers themselves (entity.go, request.go,
-   check_value.go: env_ok / request_env / actions_conform are their specification). *)
+   CONFORMANCE: Impl/Conform.v models the conformance checkers themselves (Validator.Entity / Entities / Request: entity.go, request.go,
+   check_value.go), tied by the `conform` correspondence; Proofs/ConformProofs.v proves that what they accept satisfies env_ok /
+   request_env / actions_conform / store_types_known, which closes the chain: C15_end_to_end has only hypotheses a caller establishes by
+   RUNNING the validator (plus well-formedness of the schema and of the values). *)
 From Coq Require Import ZArith List Bool.
 Import ListNotations.
 From Cedar Require Import Lang.Value Lang.Expr Impl.Eval Impl.TypeCheck Impl.ValidatePolicy Lang.TypeSound Proofs.TypeSoundLemmas Proofs.TypeSoundProofs
-  Proofs.PolicySoundProofs.
+  Proofs.PolicySoundProofs Impl.Conform Proofs.ValueProofs Proofs.ConformProofs.
 
 (* if the strict type checker accepts e with type t, then in every conforming environment evaluation yields a value of type t (and
    the capabilities e establishes when true), or fails with one of the three allowed error kinds: never a type error, an unknown
@@ -70,6 +72,53 @@ Proof. exact permissive_unsound. Qed.
    not declare) makes an accepted expression fail with a type error *)
 Definition C15_strict_needs_action_conformance := strict_needs_action_conformance.
 
+(* ---- the conformance checkers (Impl/Conform.v) ---- *)
+(* a value the checker accepts at a declared type inhabits that type - and conversely: check_value decides vtyped exactly.
+   decl_ty: the types a resolved schema can declare (one entity name, a known extension name); vnodup: records have distinct keys (every Go
+   record does); WT: record TYPES have distinct keys *)
+Theorem C15_check_value_exact : forall t v, decl_ty t -> WT t -> vnodup v -> (check_value t v = true <-> vtyped v t).
+Proof. exact check_value_iff. Qed.
+
+(* a store Validator.Entities accepts conforms: every entity of a declared type has declared, well-typed attributes and tags and parents
+   of declared parent types; enumerated entities are bare; action entities are declared and their parents lie in the closure of their
+   declared groups; no entity of an unknown type *)
+Theorem C15_check_entities_sound : forall sch enums, schema_decl sch -> agraph_wf sch -> enums_ok sch enums ->
+  forall st, store_vals_ok st -> check_entities sch enums st = true ->
+  store_ok sch st /\ actions_conform sch st /\ store_types_known sch st.
+Proof. exact check_entities_sound. Qed.
+
+(* a request Validator.Request accepts lives in a request environment of the schema and is typed by it *)
+Theorem C15_check_request_sound : forall sch acts, acts_decl acts -> forall p a r ctx, vnodup (VRecord ctx) ->
+  check_request sch acts p a r ctx = true ->
+  let tv := {| tv_principal := fst p; tv_action := a; tv_resource := fst r; tv_context := ctx_of acts a |} in
+  request_env sch acts tv /\ vtyped (VEntity (fst p) (snd p)) (CEnt [fst p]) /\ vtyped (VEntity (fst r) (snd r)) (CEnt [fst r]) /\
+  vtyped (VRecord ctx) (CRec (tv_context tv)).
+Proof. exact check_request_sound. Qed.
+
+(* END TO END: the policy is accepted by Validator.Policy (strict), the store by Validator.Entities, the request by Validator.Request
+   => evaluating the policy as the authorizer does yields a Boolean or one of the three allowed errors.
+   Remaining hypotheses: the schema is well formed (schema_wf, agraph_wf, acts_wf, schema_decl, acts_decl, enums_ok: facts about the RESOLVED
+   schema, which resolution establishes), attribute names are shorter than 10^39 bytes (model artifact), values are canonical (wf_value:
+   every Go value is). *)
+Theorem C15_end_to_end : forall sch enums acts pol st p a r ctx,
+  schema_wf sch -> agraph_wf sch -> acts_wf sch acts -> schema_decl sch -> acts_decl acts -> enums_ok sch enums ->
+  policy_keys_small pol = true -> store_vals_wf st -> wf_value (VRecord ctx) = true ->
+  validate_policy true sch acts pol = true -> check_entities sch enums st = true -> check_request sch acts p a r ctx = true ->
+  match eval {| e_store := st; e_principal := VEntity (fst p) (snd p); e_action := VEntity (fst a) (snd a);
+                e_resource := VEntity (fst r) (snd r); e_context := VRecord ctx |} (policy_to_expr pol) with
+  | Ok v => exists b, v = VBool b
+  | Err k => allowed_error k = true
+  end.
+Proof. exact validated_and_conforming_never_type_errors_wf. Qed.
+
+(* the hypotheses are satisfiable together: a concrete schema, store and request (Proofs/ConformProofs.v, Part 5) *)
+Definition C15_end_to_end_nonvacuous := ex_never_type_errors.
+
+Print Assumptions C15_check_value_exact.
+Print Assumptions C15_check_entities_sound.
+Print Assumptions C15_check_request_sound.
+Print Assumptions C15_end_to_end.
+Print Assumptions C15_end_to_end_nonvacuous.
 Print Assumptions C15_policy_sound.
 Print Assumptions C15_strict_sound.
 Print Assumptions C15_strict_sound_in_free.
